@@ -618,13 +618,13 @@ def minimize_lbfgsb(
                     np.copy(x),
                     OptimizeResult(
                         fun=f0,
-                        jac=grad,
+                        jac=np.copy(grad),
                         nfev=sf.nfev,
                         njev=sf.ngev,
-                        nit=istate.nit,
+                        nit=istate.nit + 1,
                         status=istate.warnflag,
                         message=istate.task_str,
-                        x=x,
+                        x=np.copy(x),
                         success=istate.is_success,
                         hess_inv=LbfgsInvHessProduct(
                             np.atleast_2d(np.diff(np.array(X), axis=0)),
